@@ -461,6 +461,65 @@ end
 def getPageTreeRaw (c : CallSites) (v : Variant) (enc : Str) (cs : List RawEntry) : Res :=
   getPageTree v (decodeL c enc cs)
 
+/-! ## the project's `copy_subdir` handed down the walk
+
+`PageNode.__init__`: `self.copy_subdir = self.meta.copy_subdir or proj_copy_subdir` - the option of the file
+itself first, otherwise whatever arrives as `proj_copy_subdir` at the `PageNode(...)` call that makes the node.
+`ford.main` starts the walk with the project setting; what arrives further down is decided by the call sites
+(the generated tables): each level hands a list to the two `PageNode(...)` calls and to the recursive call. -/
+
+/-- the parameter that carries the project's list (same name in `get_page_tree` and `PageNode.__init__`) -/
+def copyParam : Str := pt! "proj_copy_subdir"
+/-- how the translator names "the `copy_subdir` of the enclosing call's own index node" -/
+def nodeCopyExpr : Str := pt! "<node>.copy_subdir"
+
+/-- `self.meta.copy_subdir or proj_copy_subdir` -/
+def effCopy (pcs own : List Str) : List Str := if own.isEmpty then pcs else own
+
+/-- value of a list-valued argument expression inside a `get_page_tree` call that received `pcs` and whose
+    index node has the effective list `nodeCopy`; anything else is unknown (`[]`) -/
+def evalCopyExpr (pcs nodeCopy : List Str) (ex : Str) : List Str :=
+  if ex == copyParam then pcs else if ex == nodeCopyExpr then nodeCopy else []
+
+/-- what `call` passes for `proj_copy_subdir` (the parameter has no default in either callee) -/
+def copyArg (call : List (Str × Str)) (pcs nodeCopy : List Str) : List Str :=
+  match call.lookup copyParam with
+  | some ex => evalCopyExpr pcs nodeCopy ex
+  | none => []
+
+def CallSites.copyRec (c : CallSites) (pcs nodeCopy : List Str) : List Str := copyArg c.recCall pcs nodeCopy
+/-- (the index node does not exist yet when its own `PageNode(...)` call is made) -/
+def CallSites.copyIndex (c : CallSites) (pcs : List Str) : List Str := copyArg c.indexNodeCall pcs []
+def CallSites.copySubNode (c : CallSites) (pcs nodeCopy : List Str) : List Str := copyArg c.subNodeCall pcs nodeCopy
+
+/-- the `copy_subdir` option written in the index.md of a directory -/
+def ownIndexCopy (cs : List Entry) : List Str :=
+  match findEntry indexName cs with
+  | some (.file _ m) => m.copySub
+  | _ => []
+
+mutual
+/-- the directory with every page's `copy_subdir` replaced by the effective one, when the `get_page_tree`
+    call for the enclosing directory received `pcs` and its index node has the effective list `nodeCopy` -/
+def projE (c : CallSites) (pcs nodeCopy : List Str) : Entry → Entry
+  | .file n m =>
+    .file n { m with copySub := effCopy (if n == indexName then c.copyIndex pcs else c.copySubNode pcs nodeCopy) m.copySub }
+  | .dir n cs =>
+    .dir n (projL c (c.copyRec pcs nodeCopy)
+              (effCopy (c.copyIndex (c.copyRec pcs nodeCopy)) (ownIndexCopy cs)) cs)
+def projL (c : CallSites) (pcs nodeCopy : List Str) : List Entry → List Entry
+  | [] => []
+  | e :: es => projE c pcs nodeCopy e :: projL c pcs nodeCopy es
+end
+
+/-- the page directory as the walk started with the project list `pcs` sees the `copy_subdir` of its pages -/
+def projTop (c : CallSites) (pcs : List Str) (cs : List Entry) : List Entry :=
+  projL c pcs (effCopy (c.copyIndex pcs) (ownIndexCopy cs)) cs
+
+/-- `get_page_tree(page_dir, pcs, ..., encoding=enc)` on the directory as it is on disk -/
+def getPageTreeProj (c : CallSites) (v : Variant) (enc : Str) (pcs : List Str) (cs : List RawEntry) : Res :=
+  getPageTree v (projTop c pcs (decodeL c enc cs))
+
 /-! ## the rest of the generated documentation that the pages point into
 
 `Documentation.writeout` copies the project's `media_dir` (whatever it is called) to
